@@ -27,6 +27,8 @@ pub enum Op {
   Clone { h: u16 },
   /// export from h, import into a fresh server created with the other tag set
   ExportImport { h: u16 },
+  /// export from `from` and import into the EXISTING handle `to` (which may have served requests and punctured tags under its old key)
+  ImportInto { from: u16, to: u16 },
   /// evaluate all 256 tags on handle h
   Sweep { h: u16 },
   /// a fresh independently keyed server with the same tag set
@@ -57,6 +59,7 @@ fn strat(tier: Tier) -> BoxedStrategy<Case> {
     5 => (any::<u16>(), tag()).prop_map(|(h, tag)| Op::Puncture { h, tag }),
     2 => any::<u16>().prop_map(|h| Op::Clone { h }),
     2 => any::<u16>().prop_map(|h| Op::ExportImport { h }),
+    2 => (any::<u16>(), any::<u16>()).prop_map(|(from, to)| Op::ImportInto { from, to }),
     1 => any::<u16>().prop_map(|h| Op::Sweep { h }),
     1 => Just(Op::NewServer),
   ];
@@ -200,7 +203,22 @@ pub fn oracle(c: &Case, st: &mut Stats) -> Result<(), String> {
         let hi = idx(*h, handles.len());
         let bytes = bincode::serialize(&handles[hi].server.get_private_key()).map_err(|e| format!("{ctx}: export failed: {e}"))?;
         let state: ServerKeyState = bincode::deserialize(&bytes).map_err(|e| format!("{ctx}: exported state does not restore: {e}"))?;
-        let mut fresh = Server::new(c.other_mds.clone()).map_err(|e| e.to_string())?;
+        // the importer is a server that already served requests under its own key:
+        // created with another tag set plus the exporter's tags, and swept before the import
+        let mut imp_tags = c.other_mds.clone();
+        if i % 2 == 0 {
+          imp_tags.extend(c.mds.iter().cloned());
+        }
+        let mut fresh = Server::new(imp_tags.clone()).map_err(|e| e.to_string())?;
+        if i % 3 != 0 {
+          for md in imp_tags.iter().take(12) {
+            let _ = fresh.eval(&points[1], *md, i % 2 == 1);
+          }
+          if let Some(md) = imp_tags.first() {
+            let _ = fresh.puncture(*md);
+          }
+          st.class("importer-had-served-requests");
+        }
         fresh.set_private_key(state);
         let imp = Handle {
           server: fresh,
@@ -218,6 +236,23 @@ pub fn oracle(c: &Case, st: &mut Stats) -> Result<(), String> {
           st.class("export-after-puncture");
         }
         st.class("op=export-import");
+      }
+      Op::ImportInto { from, to } => {
+        let (fi, ti) = (idx(*from, handles.len()), idx(*to, handles.len()));
+        if fi != ti {
+          let bytes = bincode::serialize(&handles[fi].server.get_private_key()).map_err(|e| format!("{ctx}: export failed: {e}"))?;
+          let state: ServerKeyState = bincode::deserialize(&bytes).map_err(|e| format!("{ctx}: exported state does not restore: {e}"))?;
+          handles[ti].server.set_private_key(state);
+          handles[ti].lineage = handles[fi].lineage;
+          handles[ti].punctured = handles[fi].punctured.clone();
+          for md in 0..=255u8 {
+            eval_check(&handles[ti], &mut model, md, 1, md % 7 == 0, &points, &format!("{ctx} (importing handle)"), st)?;
+          }
+          st.class("op=import-into-existing-handle");
+          if saw_puncture {
+            interesting = true;
+          }
+        }
       }
       Op::Sweep { h } => {
         let hi = idx(*h, handles.len());
